@@ -200,6 +200,9 @@ def eval_atoms(expr: ast.AST, classify: Classifier, asg: Dict[str, bool], used: 
 
 def walk_atoms(g: CFG, classify: Classifier, asg: Dict[str, bool]) -> Tuple[str, Optional[CNode], List[CNode], List[str]]:
     """Follow the CFG under a truth assignment of the atoms.  (outcome, return node, visited nodes, trace)."""
+    if any(isinstance(n, ast.Try) for n in walk_shallow(g.fn)):
+        raise AnalysisError("try/except inside a function analysed as a truth table (exceptional edges are not part of "
+                            "the table) - unrecognised idiom")
     cur = g.entry
     visited: List[CNode] = []
     trace: List[str] = []
@@ -249,9 +252,9 @@ def table_rule(ctx: Ctx, rid: str, fn: FuncInfo, g: CFG, classify: Classifier, a
                    f"{len(rows)}-row table over {list(atoms)}: {what} happens only in rows with {a}={want}" if not bad else
                    f"{what} happens although {a}={not want}: {bad[0][0]}", bad[0][1] if bad else None)
     full = [h for asg, h, _ in rows if all(asg[a] == w for a, w in required.items())]
-    ctx.record(rid, ctx.key(fn, f"{what} happens when all conditions hold"), fn.loc(), bool(full) and all(full),
-               f"{what} happens in every row where {required} holds" if full and all(full) else
-               f"{what} does not happen although {required} holds")
+    ctx.record(rid, ctx.key(fn, f"{what} happens when all conditions hold"), fn.loc(), any(full),
+               f"{what} happens in {sum(full)} of the {len(full)} rows where {required} holds" if any(full) else
+               f"{what} never happens, not even when {required} holds")
 
 
 # ------------------------------------------------------------------------------------------------ shared recognisers
@@ -972,8 +975,8 @@ def r16_6(ctx: Ctx) -> None:
                    ok_tab and ok_field,
                    f"sum <,=,> timestep gives {tab} on `{unparse(n.ast)[:70]}`; timeout field {field}" +
                    ("" if ok_field else f" does not belong to a {kind} session"))
-        if ok_tab:
-            tests.append((n, tab == (True, True, False)))
+        # polarity on which the test says "timed out": the value it takes when the deadline has clearly passed
+        tests.append((n, tab[0]))
     ctx.floor("R16.6", "time-out tests in pre_timestep", len(tests), 2)
 
     def timed_out_edge(e: Edge) -> bool:
@@ -998,7 +1001,7 @@ def r16_6(ctx: Ctx) -> None:
             call_name(c) == "_timeout_session" for b in m.ast.body for c in calls_in(b))
             and not any(isinstance(x, (ast.If, ast.Continue, ast.Break, ast.Return)) for b in m.ast.body for x in ast.walk(b))]
         post = g.path_avoiding([g.exit], lambda e: False, start=n, blocked_nodes={m.id for m in loops})
-        ctx.record("R16.6", ctx.key(fn, f"every session collected in `{lst}` reaches _timeout_session"), fn.loc(n.ast),
+        ctx.record("R16.6", ctx.key(fn, f"`{unparse(n.ast)[:50]}`: every collected session reaches _timeout_session"), fn.loc(n.ast),
                    post is None and bool(loops),
                    f"an unconditional loop over `{lst}` calls _timeout_session on every path after the collection"
                    if post is None and loops else "a collected inactive session may never be timed out", path_text(post))
@@ -1180,7 +1183,7 @@ def r16_8(ctx: Ctx) -> None:
         ok = (s.attr, s.owner) in allowed
         if ok and s.attr == "disabled" and s.owner == "UserManager.enable_user":
             ok = isinstance(s.value, ast.Constant) and s.value.value is False
-        ctx.record("R16.8", f"{s.path}::{s.owner}::writes User.{s.attr} ({s.kind})", s.where, ok,
+        ctx.record("R16.8", f"{s.path}::{s.owner}::writes {'UserManager' if s.attr == 'users' else 'User'}.{s.attr} ({s.kind})", s.where, ok,
                    allowed.get((s.attr, s.owner), "account flag written outside the guarded UserManager methods"))
     ctx.floor("R16.8", "writers of the account flags", n_w, 4)
 
